@@ -14,6 +14,8 @@ use std::mem;
 verus! {
 
 //@include _shared/registry_preamble_a.rs
+opaque!(Channel);
+opaque!(BusListener);
 //@item core/src/message/call_function.rs struct CallFunction
 //@item core/src/message/call_function2.rs struct CallFunction2
 //@item core/src/message/call_function_reply.rs struct CallFunctionReply
@@ -29,9 +31,6 @@ impl IntoMessage for AbortFunctionCall { open spec fn min_minor() -> u32 { 16 } 
 impl Broker {
     //@include _shared/registry_inv.rs
 
-    spec fn unchanged(&self, o: &Self) -> bool {
-        &&& self.same_rest(o) &&& self.same_registry(o) &&& self.calls() =~= o.calls() &&& self.conns@ =~= o.conns@
-    }
 
     // nothing changed; for connection `c` this is stated on the view of its caller table (the hash map was probed)
     spec fn unchanged_calls_view(&self, o: &Self, c: ConnectionId) -> bool {
